@@ -166,11 +166,11 @@ Section Locks.
         eapply no_new_trans; [apply no_new_end_blocks|apply no_new_with_tag].
       + (* KWatch *) destruct (negb (interrupt_registered (st s n))); [apply NN; nn|]. destruct (negb b); [exact C|].
         destruct (cancelled (st s n)); [exact C|]. unfold watch_await. destruct (activated (st s n)); [exact C|].
-        destruct (cancelled (st s n)); [exact C|]. unfold try_activate.
+        destruct (cancelled (st s n)); [exact C|]. unfold try_activate. destruct (cancelled (st s n)); [exact C|].
         destruct (forced (st s n)); [apply NN; nn|]. destruct (memn n (e_cond_err e)); [exact C|].
         destruct (memn n (e_cond_true e)); [apply NN; nn|exact C].
       + (* KAlarm *) destruct (negb (interrupt_registered (st s n))); [apply NN; nn|]. destruct (negb b); [exact C|].
-        unfold alarm_await. destruct (activated (st s n)); [exact C|]. unfold try_activate.
+        unfold alarm_await. destruct (activated (st s n)); [exact C|]. unfold try_activate. destruct (cancelled (st s n)); [exact C|].
         destruct (forced (st s n)); [apply NN; nn|]. destruct (memn n (e_cond_err e)); [exact C|].
         destruct (memn n (e_cond_true e)); [apply NN; nn|exact C].
       + (* KWait *) set (s1 := set_ns s n _). assert (N1 : no_new s s1) by (unfold s1; nn).
@@ -205,12 +205,12 @@ Section Locks.
       + apply NN. nn.
     - (* FNoop *) destruct (n_kind (nd p n)); try exact C. destruct (Nat.ltb _ _); [exact C|apply NN; nn].
     - (* FWatchAwait *) unfold watch_await. destruct (activated (st s n)); [exact C|].
-      destruct (cancelled (st s n)); [exact C|]. unfold try_activate.
+      destruct (cancelled (st s n)); [exact C|]. unfold try_activate. destruct (cancelled (st s n)); [exact C|].
       destruct (forced (st s n)); [apply NN; nn|]. destruct (memn n (e_cond_err e)); [exact C|].
       destruct (memn n (e_cond_true e)); [apply NN; nn|exact C].
     - exact C.
     - apply NN. nn.
-    - (* FAlarmAwait *) unfold alarm_await. destruct (activated (st s n)); [exact C|]. unfold try_activate.
+    - (* FAlarmAwait *) destruct (n_kind (nd p n)); try exact C. unfold alarm_await. destruct (activated (st s n)); [exact C|]. unfold try_activate. destruct (cancelled (st s n)); [exact C|].
       destruct (forced (st s n)); [apply NN; nn|]. destruct (memn n (e_cond_err e)); [exact C|].
       destruct (memn n (e_cond_true e)); [apply NN; nn|exact C].
     - exact C.
